@@ -458,6 +458,8 @@ def check(db, rep):
                   'ASTInterpreter::AfterVisit then logs unknownError for an expression the checker accepted', prefix='evaluator_', defensive_variant_tests=True)
     r7 = rep.rule('r7', 'ORDER: Interpreter::Evaluate parses, type-checks, normalises and evaluates in this order, each step guarded by the success of the previous', 1)
     order_rule(db, r7)
+    r8 = rep.rule('r8', 'NORMALISE-SCOPE: eliminating a tuple declaration rewrites every in-scope occurrence of its variables (also a child that is itself a bare variable)', 5)
+    normalise_scope_rule(db, r8, tg)
     for k, v in note.items():
         rep.note(k, v)
 
@@ -522,3 +524,68 @@ def _atoms_at(f, pos):
         if c2 is not None:
             out.append((c2, pol2))
     return out
+
+
+# scope of the variables bound by a tuple declaration, per construct: child indices whose subtree may mention them (read off the language:
+# quantifier and declarative bind in their predicate, recursion in condition and step, an imperative block binds for the whole imperative expression)
+# constructs where an in-scope child may be *one of the declared variables itself*: only the value expression of an imperative (any type).
+# The step/condition of a recursion cannot: its type must equal the type of the whole declared tuple (ViRecursion), which no component has.
+BARE_VARIABLE_POSSIBLE = {'NT_IMPERATIVE_EXPR'}
+TUPLE_SCOPE = {
+    'Quantifier': {'FORALL': [2], 'EXISTS': [2]},
+    'Declarative': {'NT_DECLARATIVE_EXPR': [2]},
+    'Recursion': {'NT_RECURSIVE_FULL': [2, 3], 'NT_RECURSIVE_SHORT': [2]},
+    'Imperative': {'NT_IMPERATIVE_EXPR': 'all'},
+}
+
+
+def normalise_scope_rule(db, rule, tg):
+    """After a tuple declaration (a,b) is replaced by one fresh variable, every occurrence of a and b in its scope must be rewritten to a
+    projection: each in-scope child is handed to SubstituteTupleVariables, and where the grammar allows the child itself to be a bare
+    variable the parent is handed over as well (the substitution only rewrites children of the node it is given)."""
+    N = R + 'Normalizer'
+    sub = N + '::SubstituteTupleVariables'
+    methods = {f.name.split('::')[-1]: f for f in db.methods_of(N) if f.has_cfg()}
+    for mname, kinds in TUPLE_SCOPE.items():
+        f = methods.get(mname)
+        if f is None:
+            rule.broken('anchor vanished: Normalizer::%s' % mname)
+            continue
+        root_param = f.rec['params'][0]
+        calls = [n for n in f.calls() if n.get('cs') == sub]
+        # helper indirection: Quantifier -> TupleDeclaration(quant(0), quant(2)) -> SubstituteTupleVariables(predicate)
+        covered_idx, covers_root, covers_all = set(), False, False
+        for n in f.calls():
+            cs = n.get('cs') or ''
+            tgt = None
+            if cs == sub:
+                tgt = f.strip(f.stmts[n['args'][0]])
+            elif cs == N + '::TupleDeclaration' and len(n.get('args', [])) >= 2:
+                tgt = f.strip(f.stmts[n['args'][1]])
+            if tgt is None:
+                continue
+            if tgt['k'] == 'DeclRefExpr' and tgt.get('did') == root_param['did']:
+                covers_root = True
+            elif tgt['k'] == 'CXXOperatorCallExpr' and tgt.get('op') == '()' and f.strip(f.stmts[tgt['args'][0]]).get('did') == root_param['did']:
+                idx = f.strip(f.stmts[tgt['args'][1]])
+                if idx['k'] == 'IntegerLiteral':
+                    covered_idx.add(int(idx.get('cv', idx.get('txt', '0'))))
+                else:
+                    # a loop variable running over all children
+                    covers_all = True
+        for kind, scope in kinds.items():
+            ars = sorted(tg.arity.get(kind, ()))
+            if not ars:
+                rule.broken('tree grammar has no %s nodes' % kind)
+                continue
+            idxs = list(range(0, max(ars))) if scope == 'all' else scope
+            missing = [i for i in idxs if not (covers_all or i in covered_idx or covers_root and False)]
+            bare = [i for i in idxs if 'ID_LOCAL' in tg.children_at(kind, i)] if kind in BARE_VARIABLE_POSSIBLE else []
+            inst = 'Normalizer::%s:%s' % (mname, kind)
+            if missing:
+                rule.violation(inst, '%s:%d' % (f.file, f.line), 'children %s of a %s node are in the scope of the tuple declaration but are not handed to SubstituteTupleVariables: variables of the removed declaration stay unbound there' % (missing, kind))
+            elif bare and not covers_root:
+                rule.violation(inst, '%s:%d' % (f.file, f.line), 'child %s of a %s node can be a bare variable (tree grammar) and SubstituteTupleVariables only rewrites the children of the node it is given: the node itself must be passed too, or `%s` keeps a variable the declaration no longer binds' % (
+                    bare, kind, tg.witness.get((kind, bare[0], 'ID_LOCAL'), '?')))
+            else:
+                rule.ok(inst, 'in-scope children %s substituted%s' % (idxs if scope != 'all' else 'all', '; bare-variable children covered through the parent' if bare else ''), '%s:%d' % (f.file, f.line))
